@@ -85,8 +85,21 @@ def run(chk):
             chk.finding("flight12 flight0/flight2 handlers", {"monitor": "panic"}, "panic under crafted ClientHellos", {"output": o[-4000:]})
         else:
             chk.broken("correspondence harness TestVerifC13 no longer runs against /repo (%s)" % kind, o)
+    # DTLS 1.3 (HelloRetryRequest with cookie): monitor-only leg
+    out13 = vlib.out_path("c13v13")
+    rc13, o13 = vlib.go_test(".", "^TestVerifC13V13$", {"VERIF_SEED": chk.seed, "VERIF_TIER": chk.tier, "VERIF_OUT": out13},
+                             tags=["c13", "c13v13"], timeout=1200)
+    cases13 = vlib.read_jsonl(out13)
+    vlib.cleanup(out13)
+    if rc13 != 0:
+        kind = vlib.classify_go_failure(o13)
+        if kind == "panic":
+            found = True
+            chk.finding("flight13 flight0/flight2 handlers", {"monitor": "panic"}, "panic under crafted DTLS 1.3 ClientHellos", {"output": o13[-4000:]})
+        else:
+            chk.broken("correspondence harness TestVerifC13V13 no longer runs against /repo (%s)" % kind, o13)
     seen = set()
-    for c in cases:
+    for c in cases + cases13:
         m = monitor(c)
         if m:
             i, text = m
@@ -123,6 +136,12 @@ def run(chk):
               samples=[{"variant": c["variant"], "steps": [(s["in"], s["mseq"], s["cookie"], s["body"], s["out"]) for s in c["steps"]]}
                        for c in cases[50:52]])
     chk.cov["traces_validated_against_impl"] = len(cases)
+    chk.count("dtls13_scripts", len(cases13), [tuple((s["in"], s["mseq"], s["cookie"], s["body"]) for s in c["steps"]) for c in cases13],
+              samples=[[(s["in"], s["mseq"], s["cookie"], s["body"], s["out"]) for s in c["steps"]] for c in cases13[4:6]])
+    chk.leg_info("dtls13_scripts", accepted=sum(1 for c in cases13 if any(s["out"] == "flight4" for s in c["steps"])),
+                 rejected=sum(1 for c in cases13 if any(s["out"] == "alert" for s in c["steps"])),
+                 note="monitor-only: second ClientHello of a real 1.3 client delivered unchanged / with cookie altered, truncated, "
+                      "removed / with random, suites, session id altered; repeated first hellos; timer waits")
     outs = {}
     for c in cases:
         for s in c["steps"]:
@@ -142,4 +161,4 @@ def run(chk):
         assumptions=["'otherwise identical' is read as the set ValidateHelloVerifyRequestResponse pins (RFC 6347 4.2.1: everything "
                      "but the cookie, extensions other than connection_id/use_srtp excepted) - DESIGN.md C13 note",
                      "cookie unguessability (20 random bytes per connection) is not modelled: the theorem says the echoed cookie equals the issued one",
-                     "DTLS 1.3 HelloRetryRequest exchange: not in this model"])
+                     "DTLS 1.3 HelloRetryRequest exchange: covered by the monitors only (not in the Coq model)"])
